@@ -36,6 +36,9 @@ def run_model(chunk):
 
 def run_impl(chunk):
     env = dict(os.environ)
+    env.pop("PYTHONOPTIMIZE", None)
+    if chunk and ".pyO:" in chunk[0].split(" ", 2)[1]:
+        env["PYTHONOPTIMIZE"] = "1"          # python -O: assert statements are compiled away
     env["PYTHONPATH"] = REPO
     env["PYTHONHASHSEED"] = "0"
     env["CHECKPOINT_SCHEDULES_VERIF"] = "1"
@@ -49,10 +52,12 @@ def run_all(cases, jobs=16, chunks_per_job=6):
     # contiguous blocks: cases of one component (and neighbouring parameter tuples) run in the same process, so that
     # state leaking from one construction into the next (C15) has a chance to show
     # ... except the cold-start cases (component name ending in .cold), which each get a process of their own
+    # ... and the cases of components ending in .pyO, which run together in an interpreter started with assertions disabled
     cold = [l for l in cases if ".cold:" in l.split(" ", 2)[1]]
-    cases = [l for l in cases if ".cold:" not in l.split(" ", 2)[1]]
+    pyo = [l for l in cases if ".pyO:" in l.split(" ", 2)[1]]
+    cases = [l for l in cases if ".cold:" not in l.split(" ", 2)[1] and ".pyO:" not in l.split(" ", 2)[1]]
     size = max(1, -(-len(cases) // n))
-    chunks = [cases[i:i + size] for i in range(0, len(cases), size)] + [[l] for l in cold]
+    chunks = [cases[i:i + size] for i in range(0, len(cases), size)] + [[l] for l in cold] + ([pyo] if pyo else [])
     model, impl, errors = {}, {}, []
     with cf.ThreadPoolExecutor(max_workers=jobs) as ex:
         futs = {}
